@@ -61,6 +61,23 @@ class TranslationError(Exception):
     """
 
 
+def _slot_attribute_name(clazz, slot_name):
+    """
+    Returns the name of the attribute created for the given __slots__ entry:
+    private names (two leading underscores, no trailing ones) are mangled by
+    the class statement, but kept as written in __slots__
+
+    :param clazz: The class declaring the slot
+    :param slot_name: The slot name, as found in __slots__
+    :return: The name to use with getattr/setattr
+    """
+    if slot_name.startswith("__") and not slot_name.endswith("__"):
+        class_name = clazz.__name__.lstrip("_")
+        if class_name:
+            return "_{0}{1}".format(class_name, slot_name)
+    return slot_name
+
+
 def _slots_finder(clazz, fields_set):
     """
     Recursively visits the class hierarchy to find all slots
@@ -70,7 +87,9 @@ def _slots_finder(clazz, fields_set):
     """
     # ... class level
     try:
-        fields_set.update(clazz.__slots__)
+        fields_set.update(
+            _slot_attribute_name(clazz, name) for name in clazz.__slots__
+        )
     except AttributeError:
         pass
 
